@@ -120,6 +120,19 @@ int main(int argc, char** argv) {
   std::vector<unsigned> idSizes = {1};
   if (C.flag("id2")) idSizes.push_back(2);
   uint64_t reachedLimit = 0;
+  {
+    // can the allocator core be bound at all?  (a tree that renamed allocSlot/freeSlot/getSlot/clear cannot be driven by
+    // px_unit.cpp: that is not a property violation; the other C19 jobs still decide the property at document level)
+    std::string bin = work + "/px_unit_probe_" + std::to_string(C.shard);
+    std::string cmd = "clang++ -std=c++17 -O0 -w -I" + repo + "/src " + src + " -o " + bin + " 2>" + bin + ".err";
+    if (system(cmd.c_str()) != 0) {
+      C.note("the pool machine could not be bound to the allocator core: " + src + " does not compile against " + repo + "/src in the default geometry (internal API changed?)");
+      C.complete = false;
+      return C.finish();
+    }
+    remove(bin.c_str());
+    remove((bin + ".err").c_str());
+  }
   for (unsigned idSize : idSizes) {
     for (unsigned long cap : caps) {
       unsigned long limit = (1UL << (8 * idSize)) - 1;
